@@ -280,5 +280,6 @@ def build(run):
                        'input_signature agree; plus the error families (unknown name, foreign block, wrong kind, duplicate, connect twice, add after finalize)')
     run.unclaim("the converse 'an input connection is one of the block's inputs' for inverter blocks created by the user (they are processed in both "
                 "passes; the second pass re-validates already resolved inputs) and 'no block is created in the second pass' (needs the string "
-                "clauses of _validate_blk inside the loops): covered by the bounded search only; CBlock.connect/check_signature/get_conf: bounded only")
+                "clauses of _validate_blk inside the loops): covered by the bounded search only; CBlock.check_signature/get_conf: bounded only "
+                "(connect and input_signature are under contract)")
     run.assume('block objects are heap objects; Const objects are not blocks')
